@@ -81,6 +81,11 @@ def rule_sets(tier):
         for prov in ("sm", "L1"):
             for sends in (("r",), ("a", "r"), ("r", "a"), ("a", "a", "r"), ("a",), ("a", "a")):
                 out.append(("guarded", (rule("a", ph, prov, sends, 1),)))
+    # a nested send of a name that is no event of the machine: it is queued like any other and
+    # rejected when its turn comes (after the transition in progress has completed)
+    for ph in ("before", "exit", "on", "enter", "after"):
+        for sends in (("zz",), ("zz", "b"), ("b", "zz")):
+            out.append((False, (rule("a", ph, "sm", sends, 1),)))
     sbase = [srule(x, ph, "sm", s, 1) for (x, ph) in XP_SPARSE for s in SINGLES]
     for r1, r2 in itertools.combinations(sbase, 2):
         if not _conflict(r1, r2):
